@@ -296,14 +296,15 @@ func (w *kqueue) remove(name string, unwatchFiles bool) error {
 		return fmt.Errorf("%w: %s", ErrNonExistentWatch, name)
 	}
 
+	// Always close the descriptor and forget the watch, also if EV_DELETE
+	// fails (e.g. because the kqueue itself is already closed): closing the
+	// descriptor removes the kevent too, and not doing it leaks it.
 	err := w.register([]int{info.wd}, unix.EV_DELETE, 0)
+	unix.Close(info.wd)
+	isDir := w.watches.remove(info.wd, name)
 	if err != nil {
 		return err
 	}
-
-	unix.Close(info.wd)
-
-	isDir := w.watches.remove(info.wd, name)
 
 	// Find all watched paths that are in this directory that are not external.
 	if unwatchFiles && isDir {
